@@ -731,4 +731,66 @@ def WF (s : Store) : Prop := ∀ c a, s.bind c a < s.next
 
 end ClassTables
 
+
+/-! ### a shared, read-mostly table handed to every fresh worker (the per-class dispatch table)
+
+  `Generator.__init__` hands every instance the SAME per-class table (`self._dispatch = _DISPATCH_CACHE[cls]`): it looks
+  per-instance but is shared by all live generators of the class, whatever their dialect SETTINGS (`version=…`). Model:
+  a call has a size `k` and a setting `v`; its fresh worker emits `k` entries `(name, handler)`. With a read-only table
+  the handler is chosen from the call's own setting each time (`if self.dialect.version < …` inside the handler); with
+  `ctorWrites` the worker's constructor stores the handler for ITS setting into the shared slot and rendering reads the
+  slot. -/
+namespace SharedTable
+
+structure TCfg where
+  ctorWrites : Bool
+
+structure TThread where
+  todo : List (Nat × Nat)                           -- (size, setting) of the calls still to run
+  run : Option (Nat × Nat × Nat × List (Nat × Nat)) -- in flight: entries left, counter, setting, emitted so far
+  results : List (List (Nat × Nat))
+  deriving Repr, Inhabited
+
+structure TState where
+  slot : Nat                                        -- the shared table entry (`_dispatch[exp.GroupConcat]`)
+  threads : Tid → TThread
+
+def tset (s : TState) (t : Tid) (th : TThread) : TState :=
+  { s with threads := fun u => if u = t then th else s.threads u }
+
+def tstepRun (cfg : TCfg) (s : TState) (t : Tid) (th : TThread) (r c v : Nat) (e : List (Nat × Nat)) : TState :=
+  match r with
+  | 0 => tset s t { th with run := none, todo := th.todo.tail, results := th.results ++ [e] }
+  | r' + 1 => tset s t { th with run := some (r', c + 1, v, e ++ [(c, if cfg.ctorWrites then s.slot else v)]) }
+
+/-- one atomic step of thread `t`: construct the worker of the next call, emit one entry, or return -/
+def tstep (cfg : TCfg) (s : TState) (t : Tid) : Option TState :=
+  match (s.threads t).run with
+  | some (r, c, v, e) => some (tstepRun cfg s t (s.threads t) r c v e)
+  | none =>
+    match (s.threads t).todo with
+    | [] => none
+    | (k, v) :: _ =>
+      if cfg.ctorWrites then some (tset { s with slot := v } t { (s.threads t) with run := some (k, 0, v, []) })
+      else some (tset s t { (s.threads t) with run := some (k, 0, v, []) })
+
+def tinit (slot0 : Nat) (progs : Tid → List (Nat × Nat)) : TState :=
+  { slot := slot0, threads := fun t => { todo := progs t, run := none, results := [] } }
+
+def trun (cfg : TCfg) (s : TState) : List Tid → TState
+  | [] => s
+  | t :: ts =>
+    match tstep cfg s t with
+    | some s' => trun cfg s' ts
+    | none => trun cfg s ts
+
+def TComplete (s : TState) : Prop := ∀ t, (s.threads t).run = none ∧ (s.threads t).todo = []
+
+/-- what a call (k, v) returns alone: entries 0 … k-1, each rendered by the handler of its own setting -/
+def texpected (kv : Nat × Nat) : List (Nat × Nat) := (List.range kv.1).map fun i => (i, kv.2)
+
+def tseq (prog : List (Nat × Nat)) : List (List (Nat × Nat)) := prog.map texpected
+
+end SharedTable
+
 end SqlglotModel.Threads
